@@ -420,6 +420,32 @@ def checkBait (input : Bytes) (evs : List Ev) : List String :=
    if n > 0 && seen != want && !evs.any (fun e => match e with | .panicLog => true | _ => false)
    then ["C02/C05 the commands that follow the message were not executed exactly once, in order"] else [])
 
+/-- C02 "the next command executed is exactly the line that follows the end marker", observed on replies:
+    when the first marker command directly follows the end-of-data line in the client's octets, then between
+    the start of that DATA delivery and the execution of the marker command the server writes exactly the
+    final reply(ies) of the message — one, or one per accepted recipient in LMTP — and nothing else
+    (anything more is the reply to something that was executed in between). -/
+def checkResume (lmtp : Bool) (input : Bytes) (evs : List Ev) : List String :=
+  if !containsSub input ("\r\n.\r\nMAIL FROM:<mk0@x>\r\n".b) then [] else
+  if evs.any (fun e => match e with | .panicLog => true | _ => false) then [] else
+  match evs.findIdx? (fun e => match e with | .mail _ a _ _ => a == "mk0@x".b | _ => false) with
+  | none => []
+  | some j =>
+    let before := evs.take j
+    -- the last delivery that began before the marker command ran
+    match (before.zipIdx.filter (fun p => match p.1 with | .dataBegin .. => true | _ => false)).getLast? with
+    | none => []
+    | some (_, i) =>
+      let pre := before.take i
+      let preReplies := (pre.filterMap fun e => match e with | .w bs => ReplySyntax.parse bs | _ => none).flatten
+      if (preReplies.getLast?.map (·.code)) != some 354 then [] else       -- not a DATA delivery
+      let nrcpt := ((pre.reverse.takeWhile (fun e => match e with | .mail .. => false | _ => true)).filter
+        (fun e => match e with | .rcpt _ _ _ .ok => true | _ => false)).length
+      let want := if lmtp then nrcpt else 1
+      let got := ((before.drop i).filterMap fun e => match e with | .w bs => ReplySyntax.parse bs | _ => none).flatten.length
+      if got != want then ["C02 something between the end-of-data line and the command that follows it was executed (extra or missing replies)"]
+      else []
+
 /-- expected octets of delivery records (`k`, octets) handed down by the case generator -/
 def checkExpect (exp : List (Nat × Bytes)) (drecs : List DRec) : List String :=
   if exp.all (fun (k, o) => match drecs[k]? with | some d => d.octets == o | none => false) then []
